@@ -57,6 +57,18 @@ type Pred struct {
 	Col string `json:"col,omitempty"`
 	Cmp string `json:"cmp,omitempty"` // = <> < <= > >=
 	V   *Val   `json:"v,omitempty"`
+	// Flip: the leaf is written with the constant on the left ("3 < a" for "a > 3"); same meaning
+	Flip bool `json:"flip,omitempty"`
+}
+
+var mirrored = map[string]string{"=": "=", "<>": "<>", "<": ">", "<=": ">=", ">": "<", ">=": "<="}
+
+// leafSQL renders a leaf, the constant on the right or (Flip) on the left with the comparison mirrored.
+func (p *Pred) leafSQL(lit func(Val) string) string {
+	if p.Flip {
+		return lit(*p.V) + " " + mirrored[p.Cmp] + " " + p.Col
+	}
+	return p.Col + " " + p.Cmp + " " + lit(*p.V)
 }
 
 func Leaf(col, cmp string, v Val) *Pred { return &Pred{Col: col, Cmp: cmp, V: &v} }
@@ -87,7 +99,7 @@ func (p *Pred) Leaves() []*Pred {
 // different operator are parenthesised; the top level never is (the front end rejects that form).
 func (p *Pred) sql(lit func(Val) string, parentOp string) string {
 	if p.IsLeaf() {
-		return p.Col + " " + p.Cmp + " " + lit(*p.V)
+		return p.leafSQL(lit)
 	}
 	s := p.L.sql(lit, p.Op) + " " + strings.ToUpper(p.Op) + " " + p.R.sql(lit, p.Op)
 	if parentOp != "" && parentOp != p.Op {
@@ -472,7 +484,7 @@ func (q *JoinQuery) SQL(placeholders bool) string {
 		w = append(w, c.L.String()+" = "+c.R.String())
 	}
 	for _, f := range q.Filters {
-		w = append(w, f.Col+" "+f.Cmp+" "+lit(*f.V))
+		w = append(w, f.leafSQL(lit))
 	}
 	if len(w) > 0 {
 		sb.WriteString(" WHERE " + strings.Join(w, " AND "))
